@@ -22,6 +22,7 @@ func init() {
 			ruleKeyOrderPredicates(c, "C04.R5")
 			c04R6(c, "C04.R6")
 			c04R7(c, "C04.R7")
+			c04R9(c, "C04.R9")
 			ruleRollbackUndoesFrees(c, "C04.R8") // a rolled-back DeleteBucket must not leave the bucket's pages released
 		},
 	})
@@ -509,6 +510,37 @@ func c04R7(c *Ctx, id string) {
 				}
 			}
 			c.check(id+":"+spec.callee+":callers", nil, 0, fmt.Sprintf("%s is called only from %v", spec.callee, sortedKeys(spec.allowed)), bad == "" && cnt > 0, "also called from "+bad)
+		}
+	})
+}
+
+// c04R9: keys stored into a node are private copies. The B+tree keeps the key slice it is given until
+// commit; if that slice is the caller's buffer, a caller that reuses the buffer after Put/CreateBucket
+// re-orders (or corrupts) the node behind the tree's back. Every node.put call must therefore receive keys
+// whose provenance holds no parameter of the enclosing function (cloneBytes / make+copy / tree-owned keys are fine).
+func c04R9(c *Ctx, id string) {
+	c.rule(id, "stored-keys-are-private-copies", 5, func() {
+		put := c.fn("bbolt.(*node).put")
+		for _, cs := range c.callersOf(put) {
+			fn := cs.Caller
+			call, ok := cs.Site.(*ssa.Call)
+			if !ok {
+				continue
+			}
+			bad := ""
+			for _, ai := range []int{1, 2} {
+				for _, l := range provenance(call.Call.Args[ai], provOpts{}) {
+					if l.Kind == "param" {
+						if p, isP := l.V.(*ssa.Parameter); isP {
+							if sl, isSl := p.Type().Underlying().(*types.Slice); !isSl || !types.Identical(sl.Elem(), types.Typ[types.Byte]) {
+								continue // only caller-supplied byte slices can alias (a string converted to []byte is a fresh copy; receivers own their keys)
+							}
+						}
+						bad = fmt.Sprintf("argument %d of node.put derives from parameter %s of %s without a copy", ai, l.Name, shortFn(fn))
+					}
+				}
+			}
+			c.check(fmt.Sprintf("%s:%s:put-keys", id, strings.TrimPrefix(shortFn(fn), "bbolt.")), fn, call.Pos(), "the keys handed to node.put do not alias a caller-supplied slice (they are cloned, or owned by the tree)", bad == "", bad)
 		}
 	})
 }
